@@ -50,7 +50,10 @@ class FixedScalar(Symbol):
 
     @property
     def expr(self):
-        return repr(self.value)
+        value = self.value
+        if isinstance(value, (np.ndarray, np.generic)):
+            value = value.item()  # repr of NumPy scalars is not a Python literal
+        return repr(value)
 
     @property
     def _expr_tree(self):
